@@ -3,6 +3,8 @@ from engine.anl.casts import const_value
 from engine.anl.origin import fmt, subterms, strip_bb
 from .common import S, co, calls_norm, is_call_term, var_name, render_path, const_strs, spawned_children, param
 
+from .common import ok_return_blocks as _okret
+
 EXPLANATION = (
     "Static decision of the HTTP front-end's control structure: (R17.1) the 200 reply to CONNECT is dominated by the Ok edge of "
     "create_proxy_stream and the Err edge answers 502 (= R10.6); (R17.2) the bytes that arrived behind the header (request.body) are "
@@ -81,7 +83,7 @@ def r3_bounded_header(ctx):
     cap = const_value(c.term[3])
     ext = calls_norm(body, "Vec::extend_from_slice")
     err_region = cfg.reach(c.succs_for(True))
-    ok_rets = [bi for kind, bi, si, rv in body.defs().get(0, []) if kind == "assign" and rv["r"] == "aggregate" and rv["kind"].get("variant") == "Ok"]
+    ok_rets = _okret(body, ctx.origins(body))
     leaves = not (rd[0].bb in err_region) and not [b for b in ok_rets if b in err_region]
     every = bool(ext) and cfg.must_pass([ext[0].bb], [rd[0].bb], via_blocks=[c.block])[0]
     ok = cap is not None and cap <= 1 << 20 and leaves and every and cap == MAXH
